@@ -150,6 +150,34 @@ pub fn gen_c02(rng: &mut Rng, thorough: bool) -> Vec<Tagged> {
         spec.layers.push(LayerSpec::One(l));
         out.push((format!("{}-threshold-fwd", kind), Case::Net(spec, NetCmd::Forward(rand_input(rng, inp, 0)))));
     }
+    // huge extents (beyond 2^10 and 2^16 elements, widths that are no powers of two), both representations
+    let huge: Vec<(Sh, Simple)> = vec![
+        (Sh::Flat(1100), Simple::Dense { out: 3, act: Act::Tanh, bias: true, dropout: None }),
+        (Sh::Flat(3), Simple::Dense { out: 1100, act: Act::Linear, bias: true, dropout: None }),
+        (Sh::Sp(1, 37, 37), Simple::Conv { filters: 1, kernel: (2, 3), stride: (1, 2), padding: (1, 0), dilation: (1, 1), act: Act::Linear, dropout: None }),
+        (Sh::Sp(1, 37, 37), Simple::Maxpool { kernel: (2, 2), stride: (1, 1) }),
+        (Sh::Sp(1, 36, 31), Simple::Deconv { filters: 1, kernel: (2, 2), stride: (1, 1), padding: (0, 0), act: Act::Linear, dropout: None }),
+        (Sh::Sp(1, 260, 257), Simple::Conv { filters: 1, kernel: (1, 1), stride: (1, 1), padding: (0, 0), dilation: (1, 1), act: Act::Linear, dropout: None }),
+        (Sh::Sp(1, 260, 257), Simple::Maxpool { kernel: (2, 1), stride: (2, 1) }),
+        (Sh::Sp(1, 257, 260), Simple::Deconv { filters: 1, kernel: (1, 1), stride: (1, 1), padding: (0, 0), act: Act::Linear, dropout: None }),
+    ];
+    for (k, (inp, l)) in huge.into_iter().enumerate() {
+        if k >= 5 && !(thorough || k == 6) {
+            continue;
+        }
+        if out_shape(&l, inp).is_none() {
+            continue;
+        }
+        let mut spec = NetSpec::new(inp.to_shape());
+        spec.weights = Some(vec![LW::One(rand_w(rng, &l, inp, 1))]);
+        let kind = l.kind();
+        spec.layers.push(LayerSpec::One(l));
+        let x = rand_input(rng, inp, 0);
+        out.push((format!("{}-huge-fwd", kind), Case::Net(spec.clone(), NetCmd::Forward(x.clone()))));
+        if kind != "dense" {
+            out.push((format!("{}-huge-fwd-flatinput", kind), Case::Net(spec, NetCmd::Forward(flat_version(&x)))));
+        }
+    }
     // chains of padded convolutions whose PADDED inputs have the same size although the paddings
     // differ (6x6 p0 -> 4x4 p1; 2x2 p2 -> 4x4 p1 -> 4x4 p1 ...): every layer pads ITS input with zeros,
     // whatever was computed before on the same thread; consecutive cases repeat the pattern
